@@ -57,7 +57,9 @@ class Application:
 
         self.is_ready: threading.Event = threading.Event()
         self._node: Node | None = None
-        self._answer_waiting: dict[int, WaitingMessage] = {}
+        # keyed by (hop-by-hop id, end-to-end id): hop-by-hop ids are handed
+        # out per connection and may coincide on two connections
+        self._answer_waiting: dict[tuple[int, int], WaitingMessage] = {}
 
     def __str__(self):
         return f"<{self.name} ({self.application_id})>"
@@ -106,8 +108,10 @@ class Application:
         return answer_msg
 
     def receive_answer(self, message: Message):
-        if message.header.hop_by_hop_identifier in self._answer_waiting:
-            waiting = self._answer_waiting[message.header.hop_by_hop_identifier]
+        waiting_id = (message.header.hop_by_hop_identifier,
+                      message.header.end_to_end_identifier)
+        if waiting_id in self._answer_waiting:
+            waiting = self._answer_waiting[waiting_id]
             waiting.answer = message
             waiting.event.set()
         else:
@@ -205,7 +209,9 @@ class Application:
         peer, _ = self.node.route_request(self, message)
 
         waiting = WaitingMessage()
-        self._answer_waiting[message.header.hop_by_hop_identifier] = waiting
+        waiting_id = (message.header.hop_by_hop_identifier,
+                      message.header.end_to_end_identifier)
+        self._answer_waiting[waiting_id] = waiting
         self.node.send_message(peer, message)
 
         try:
@@ -219,7 +225,7 @@ class Application:
         except Exception:
             raise
         finally:
-            del self._answer_waiting[message.header.hop_by_hop_identifier]
+            del self._answer_waiting[waiting_id]
 
     def start(self):
         logger.info(f"{self} application started")
